@@ -1,3 +1,18 @@
--- root of the PokerVerif library: models, specifications, proofs
+-- root of the PokerVerif library: models, specifications, drivers, proofs
 import PokerVerif.SM
 import PokerVerif.SMSpec
+import PokerVerif.TB
+import PokerVerif.TBSpec
+import PokerVerif.MG
+import PokerVerif.Drv.SMDrv
+import PokerVerif.Drv.TBDrv
+import PokerVerif.Props.C01
+import PokerVerif.Props.C02
+import PokerVerif.Props.C03
+import PokerVerif.Props.C04
+import PokerVerif.Props.C05
+import PokerVerif.Props.C06
+import PokerVerif.Props.C07
+import PokerVerif.Props.C08
+import PokerVerif.Props.C12
+import PokerVerif.Props.C17
